@@ -365,6 +365,14 @@ fn gen_wander(rng: &mut Rng) -> f64 {
     }
 }
 
+/// root delay / root dispersion values a peer can choose (seconds; NTP short format 16.16)
+const WIRE_DISPERSIONS: &[f64] = &[0.0, 1.52587890625e-05, 1.0, 16.0, 65535.0, 65535.99998474121];
+
+fn wire_ticks(rng: &mut Rng) -> i64 {
+    // the same values in 2^-32 s ticks, as `NtpDuration::from_bits_short` produces them
+    *rng.pick(&[0i64, 1 << 16, 1 << 32, 16 << 32, 65535i64 << 32, 0xFFFF_FFFFi64 << 16])
+}
+
 fn gen_kstate_case(rng: &mut Rng, _idx: u64, _run: &Run) -> Vec<String> {
     let mut ops = vec![];
     let mut t: u64 = match rng.below(4) {
@@ -401,8 +409,12 @@ fn gen_kstate_case(rng: &mut Rng, _idx: u64, _run: &Run) -> Vec<String> {
             }
             8 => ops.push(format!("kmerge {}", gen_kstate_words(rng))),
             9 => {
-                let d = match rng.below(4) {
+                // root dispersions a peer can put on the wire (16.16 fixed point): 0, one unit, 1 s, 16 s, and the
+                // top of the range (65535 s, 0xFFFF.FFFF = 65535.99998 s), next to ordinary small ones
+                let d = match rng.below(8) {
                     0 => 0.0,
+                    1 => *rng.pick(WIRE_DISPERSIONS),
+                    2 => *rng.pick(&[65535.0, 65535.99998474121, 65534.99998474121, 65535.5]),
                     _ => mag(rng, -9, 1),
                 };
                 ops.push(format!("kdisp d={}", f64hex(d)));
@@ -493,7 +505,18 @@ fn exec_kstate_case(ops: &[String], run: &mut Run) {
                 run.end_op(&kstate_line(&st));
             }
             "kdisp" => {
-                st = st.add_server_dispersion(fx(&w, "d"));
+                let before_finite = is_psd_finite(&st);
+                let d = fx(&w, "d");
+                st = st.add_server_dispersion(d);
+                // ORACLE (C06, "never passes an infinite error estimate / publishes finite snapshots"): adding
+                // a root dispersion from the wire range [0, 65536) s to a finite covariance keeps it finite
+                if before_finite && d >= 0.0 && d < 65536.0 {
+                    let a = st.uncertainty.entry(0, 0);
+                    if !a.is_finite() {
+                        run.oracle_fail("dispersion_keeps_finite", "", &format!("add_server_dispersion({:e}) made the offset variance {:e}", d, a));
+                    }
+                    run.hit("dispersion-on-finite-psd");
+                }
                 key.push('d');
                 run.end_op(&kstate_line(&st));
             }
@@ -624,10 +647,18 @@ fn gen_filter_case(rng: &mut Rng, idx: u64, run: &Run) -> Vec<String> {
         2 => 2147483647.0 * if rng.chance(1, 2) { -1.0 } else { 1.0 },
         _ => (rng.f64_unit() * 2.0 - 1.0) * mag(rng, -6, 1),
     };
+    // fixed share (every 5th history): a LARGE COMMON offset with small jitter from the very first sample (a
+    // clock that is a day / 11 days / 68 years off): the start-up variance is a difference of huge squares
+    let big_common = idx % 5 == 4;
+    if big_common {
+        theta = *rng.pick(&[86400.0, -86400.0, 1e6, -1e6, 2147480000.0, -2147480000.0, 604800.0]);
+    }
+    // fixed share (every 3rd history): root delay / dispersion are the peer's choice: wire boundary values
+    let wire_roots = idx % 3 == 2;
     let mut drift: f64 = (rng.f64_unit() * 2.0 - 1.0) * *rng.pick(&[0.0, 1e-9, 1e-6, 50e-6, 400e-6]);
-    let jitter = *rng.pick(&[0.0, 1e-9, 1e-6, 1e-4, 1e-2]);
+    let jitter = if big_common { *rng.pick(&[1e-5, 1e-6, 1e-4]) } else { *rng.pick(&[0.0, 1e-9, 1e-6, 1e-4, 1e-2]) };
     let delay_base = *rng.pick(&[0.0, 1e-6, 1e-4, 5e-3, 0.3, 30.0]);
-    let delay_jit = *rng.pick(&[0.0, 1e-7, 1e-5, 1e-3]);
+    let delay_jit = if big_common { 1e-5 } else { *rng.pick(&[0.0, 1e-7, 1e-5, 1e-3]) };
     let mut spacing_exp: i64 = rng.range(-10, 17);
     let fixed_spacing = rng.chance(1, 2);
     let mut recent: Vec<f64> = vec![];
@@ -701,8 +732,8 @@ fn gen_filter_case(rng: &mut Rng, idx: u64, run: &Run) -> Vec<String> {
         }
         let off_t = secs_to_ticks(off);
         let delay_t = secs_to_ticks(delay).max(if rng.chance(1, 50) { -1000 } else { 0 });
-        let rdelay = secs_to_ticks(rng.f64_unit() * 0.05);
-        let rdisp = secs_to_ticks(rng.f64_unit() * 0.01);
+        let rdelay = if wire_roots { wire_ticks(rng) } else { secs_to_ticks(rng.f64_unit() * 0.05) };
+        let rdisp = if wire_roots { wire_ticks(rng) } else { secs_to_ticks(rng.f64_unit() * 0.01) };
         ops.push(format!(
             "meas mono={} lt={} off={} delay={} rdelay={} rdisp={}",
             mono_ns, local, off_t, delay_t, rdelay, rdisp
@@ -779,9 +810,14 @@ fn pre_cause_meas<D: core::fmt::Debug + Copy + Clone + Send + 'static, N: Measur
             let mut ne = f.noise_estimator.clone();
             let delay = MeasurementNoiseEstimator::preprocess(&ne, m.delay);
             MeasurementNoiseEstimator::update(&mut ne, delay);
-            let s = pred.uncertainty.entry(0, 0) + ne.get_noise_estimate();
+            let r = ne.get_noise_estimate();
+            let s = pred.uncertainty.entry(0, 0) + r;
             if cov_indefinite(&pred) {
                 "psd_lost"
+            } else if r < 0.0 {
+                // a negative measurement-noise estimate is never a registered cause: the two-pass
+                // `AveragingBuffer::variance` is a sum of squares
+                "noise_negative"
             } else if s.is_finite() && (!(s > 0.0) || !(1.0 / s).is_finite()) {
                 "innovation_vanished"
             } else {
@@ -806,6 +842,19 @@ fn post_cause<D: core::fmt::Debug + Copy + Clone + Send + 'static, N: Measuremen
     pre: &'static str,
     sticky: &mut &'static str,
 ) -> &'static str {
+    post_cause_p(ctrl, pre, sticky, false)
+}
+
+/// `promoted`: this op turned the initial filter into the stable one.  An indefinite covariance straight
+/// out of the promotion (variance of the eight start-up samples negative) is NOT the registered cause
+/// `psd_lost` (rounding of the measurement update): it gets its own, unregistered cause.
+fn post_cause_p<D: core::fmt::Debug + Copy + Clone + Send + 'static, N: MeasurementNoiseEstimator<MeasurementDelay = D> + Clone + Send + 'static>(
+    ctrl: &KalmanSourceController<D, N>,
+    pre: &'static str,
+    sticky: &mut &'static str,
+    promoted: bool,
+) -> &'static str {
+    let pre = if *sticky == "init_variance_negative" && pre == "psd_lost" { "init_variance_negative" } else { pre };
     let (indefinite, finite) = match &ctrl.state.0 {
         SourceStateInner::Stable(f) => (cov_indefinite(&f.state), cov_finite(&f.state) && f.state.state.ventry(0).is_finite() && f.state.state.ventry(1).is_finite()),
         SourceStateInner::Initial(_) => (false, true),
@@ -813,13 +862,13 @@ fn post_cause<D: core::fmt::Debug + Copy + Clone + Send + 'static, N: Measuremen
     let cause = if pre != "none" {
         pre
     } else if indefinite {
-        "psd_lost"
+        if promoted { "init_variance_negative" } else { "psd_lost" }
     } else if !finite {
         *sticky
     } else {
         "none"
     };
-    *sticky = if !finite { cause } else if indefinite { "psd_lost" } else { "none" };
+    *sticky = if !finite { cause } else if indefinite { if promoted || *sticky == "init_variance_negative" { "init_variance_negative" } else { "psd_lost" } } else { "none" };
     cause
 }
 
@@ -989,7 +1038,8 @@ fn exec_filter_case(ops: &[String], run: &mut Run) {
                     };
                     let pre = pre_cause_meas(&ctrl, &m);
                     let msg = ctrl.handle_measurement(m);
-                    let cause = post_cause(&ctrl, pre, &mut sticky);
+                    let promoted = !was_stable && matches!(ctrl.state.0, SourceStateInner::Stable(_));
+                    let cause = post_cause_p(&ctrl, pre, &mut sticky, promoted);
                     if cause != "none" {
                         run.hit(if cause == "psd_lost" { "CAUSE-psd_lost(op)" } else { "CAUSE-innovation_vanished(op)" });
                     }
@@ -1345,7 +1395,8 @@ fn exec_periodic_case(ops: &[String], run: &mut Run) {
                     let was_stable = matches!(c.state.0, SourceStateInner::Stable(_));
                     let pre = pre_cause_meas(&c, &m);
                     let msg = c.handle_measurement(m);
-                    let cause = post_cause(&c, pre, &mut sticky);
+                    let promoted = !was_stable && matches!(c.state.0, SourceStateInner::Stable(_));
+                    let cause = post_cause_p(&c, pre, &mut sticky, promoted);
                     if cause != "none" {
                         run.hit(if cause == "psd_lost" { "CAUSE-psd_lost(op)" } else { "CAUSE-innovation_vanished(op)" });
                     }
